@@ -537,6 +537,10 @@ bool internal_dump_all_dialects(const char *file_name)
 	  return false;
 	}
       ok = internal_dump_all_dialects_to_file(f);
+      if (!ok)
+	{
+	  perror(file_name);
+	}
       if (EOF == fclose(f))
 	{
 	  perror(file_name);
